@@ -23,8 +23,8 @@
 EXTENDS Integers, Sequences, FiniteSets, TLC
 
 CONSTANTS Pods, Nodes, Wls, Idents, MaxOps
-AppOf(w) == IF w = "w4" THEN "b" ELSE "a"
-EntryOf(w) == IF w = "w3" THEN "y" ELSE "x"
+AppOf(w) == IF w = "w4" THEN "a2" ELSE "a"        \* "a" is a string prefix of "a2", "x" of "x2":
+EntryOf(w) == IF w = "w3" THEN "x2" ELSE "x"      \* key-prefix queries must not mix them up
 
 VARIABLES pods, nodes, winfo, widx, wstat, nstat, proc, hist
 svars == <<pods, nodes, winfo, widx, wstat, nstat, proc>>
@@ -106,7 +106,7 @@ OpSpace ==
     \cup UNION {{O("AddWorkload", w, n, "", 0)} \cup {O("AddWorkload", w, n, k, 0) : k \in Idents} : w \in Wls, n \in {m \in Nodes : Some(m)}}
     \cup UNION {{O("UpdateWorkload", w, n, "", 0), O("RemoveWorkload", w, n, "", 0), O("SetWorkloadStatus", w, n, "", 0), O("SetWorkloadStatus", w, n, "", 600)}
                 : w \in {v \in Wls : v \in Dom(winfo) \/ v = "w1"}, n \in {m \in Nodes : Some(m)}}
-    \cup {O("CreateProc", "a/" \o e, n, k, 2) : e \in {"x", "y"}, n \in {m \in Nodes : Some(m)}, k \in Idents}
+    \cup {O("CreateProc", "a/" \o e, n, k, c) : e \in {"x", "x2"}, n \in {m \in Nodes : Some(m)}, k \in Idents, c \in {1, 2}}
     \cup {O("DeleteProc", pk[1], pk[2], pk[3], 0) : pk \in Dom(proc)}
 Next == Len(hist) < MaxOps /\ \E o \in OpSpace : Apply(o) /\ hist' = Append(hist, o)
 Spec == Init /\ [][Next]_vars
